@@ -206,6 +206,21 @@ def main():
                     oid = '%s#%s' % (fid, k)
                     if oid not in bad and fid not in bad:
                         obl.append(oid)
+            import kani_lane as K
+            prev = load_json(LEDGER, {'obligations': []})['obligations']
+            table = K.harness_table()
+            want = [n for n, h in table.items() if h['tier'] == 'quick' or os.environ.get('VERIF_LEDGER_THOROUGH')]
+            kr = K.run_harnesses(want)
+            for n in want:
+                oid = 'kani::%s::%s' % (table[n]['module'], n)
+                if kr['results'].get(n, {}).get('status') == 'SUCCESSFUL':
+                    obl.append(oid)
+                else:
+                    print('kani harness not successful on the baseline, excluded from ledger:', n, kr['results'].get(n, {}).get('status'))
+            # keep thorough-tier kani entries recorded by an earlier --make-ledger run with VERIF_LEDGER_THOROUGH=1
+            for oid in prev:
+                if oid.startswith('kani::') and oid not in obl and oid.split('::')[-1] in table and table[oid.split('::')[-1]]['tier'] != 'quick' and not os.environ.get('VERIF_LEDGER_THOROUGH'):
+                    obl.append(oid)
             json.dump({'note': 'obligations discharged on the pinned tree after the fix: commits; regenerate deliberately with check.py --make-ledger',
                        'repo_head': os.popen('git -C %s rev-parse HEAD' % REPO).read().strip(), 'obligations': sorted(obl)}, open(LEDGER, 'w'), indent=1)
             print('ledger: %d obligations (%d failing excluded)' % (len(obl), len(bad)))
